@@ -7,7 +7,6 @@ import (
 	"context"
 	"os/exec"
 	"strings"
-	"sync"
 	"time"
 )
 
@@ -85,24 +84,49 @@ func runSolver(s solverSpec, query string, timeoutSec int) solveResult {
 	return solveResult{v, s.name, ms, text}
 }
 
-// solve decides one query with the portfolio.
+// solve decides one query with the portfolio: z3-new starts first; if it has no answer after a second the
+// other solvers join the race. With all=true every solver runs to completion (thorough tier: agreement).
 func solve(query string, timeoutSec int, all bool) []solveResult {
-	r0 := runSolver(solvers[0], query, timeoutSec)
-	if (r0.verdict == "unsat" || r0.verdict == "sat") && !all {
-		return []solveResult{r0}
-	}
-	var wg sync.WaitGroup
 	res := make([]solveResult, len(solvers))
-	res[0] = r0
-	for i := 1; i < len(solvers); i++ {
-		wg.Add(1)
-		go func(i int) {
-			defer wg.Done()
-			res[i] = runSolver(solvers[i], query, timeoutSec)
-		}(i)
+	done := make(chan int, len(solvers))
+	run := func(i int) {
+		res[i] = runSolver(solvers[i], query, timeoutSec)
+		done <- i
 	}
-	wg.Wait()
-	return res
+	go run(0)
+	started := 1
+	finished := 0
+	var out []solveResult
+	timer := time.After(1 * time.Second)
+	if all {
+		timer = time.After(0)
+	}
+	for finished < started {
+		select {
+		case i := <-done:
+			finished++
+			out = append(out, res[i])
+			if !all && (res[i].verdict == "unsat" || res[i].verdict == "sat") {
+				return out // the losers finish in the background and are ignored
+			}
+			if started == 1 && !all {
+				// first solver gave up quickly: let the others try
+				for j := 1; j < len(solvers); j++ {
+					go run(j)
+					started++
+				}
+			}
+		case <-timer:
+			if started == 1 {
+				for j := 1; j < len(solvers); j++ {
+					go run(j)
+					started++
+				}
+			}
+			timer = nil
+		}
+	}
+	return out
 }
 
 // decide picks the verdict: any definite answer wins; conflicting definite answers are an error.
